@@ -117,6 +117,29 @@ func runC19(c *core.Ctx) {
 					}
 				}
 			}
+			// the bound belongs to the indexing itself: every index into the shard slice in this function is guarded
+			nidx, guarded := 0, 0
+			core.AllInstrs(fn, func(x ssa.Instruction) {
+				ia, ok := x.(*ssa.IndexAddr)
+				if !ok {
+					return
+				}
+				if f, _ := core.FieldOf(ia.X); f == nil {
+					return
+				}
+				nidx++
+				for _, cm := range falseAt(p, ia) {
+					if cm.Op == token.GEQ && core.SameValue(cm.X, ia.Index) {
+						if _, isLen := lenArg(cm.Y); isLen {
+							guarded++
+							return
+						}
+					}
+				}
+			})
+			if nidx > 0 {
+				index = nidx == guarded
+			}
 			c.Check(lower, "R1", name+"/lower-bound", p.InstrPos(st), "sizes below the step are rejected", "Put stores objects smaller than the smallest size class (handed out for a larger request)")
 			c.Check(member, "R1", name+"/class-membership", p.InstrPos(st), "only sizes that are a size class are stored (class(size) == size)", "Put indexes the shard by the raw capacity without checking that it is one of the size classes: a 1500-capacity buffer lands in the shard that serves Get(2000)")
 			c.Check(index, "R1", name+"/index-bound", p.InstrPos(st), "shard index guarded by the shard count", "Put indexes the shard slice without a bound check")
